@@ -45,6 +45,22 @@ var imgTransforms = []imgTransform{
 	{"displayp3.LineariseImage", displayp3.LineariseImage, displayp3.LineariseColor},
 	{"displayp3.EncodeImage", displayp3.EncodeImage, displayp3.EncodeColor},
 	{"linear.TransformImageColor(rotate)", func(d draw.Image, s image.Image, p int) { linear.TransformImageColor(d, s, p, rotColor) }, rotColor},
+	{"linear.TransformImageColor(additive)", func(d draw.Image, s image.Image, p int) { linear.TransformImageColor(d, s, p, additiveColor) }, additiveColor},
+}
+
+// additiveColor is a legal transform result that is not a valid premultiplied
+// colour for every pixel: alpha 0 with colour left in place ("additive"
+// pixels), alpha below the colour components, and ordinary values. What the
+// destination stores for such a value is whatever its own Set does.
+func additiveColor(c color.Color) color.RGBA64 {
+	r, g, b, a := c.RGBA()
+	switch (r + 3*g + 5*b) % 4 {
+	case 0:
+		return color.RGBA64{R: uint16(r) | 0x0101, G: uint16(g), B: uint16(b) | 0x8000, A: 0}
+	case 1:
+		return color.RGBA64{R: uint16(r) | 0x4000, G: uint16(g), B: uint16(b), A: uint16(a) / 4}
+	}
+	return color.RGBA64{R: uint16(b), G: uint16(r), B: uint16(g), A: uint16(a)}
 }
 
 type imgShape struct {
